@@ -165,13 +165,18 @@ class FileProxy:
         return getattr(self._f, n)
 
 
-def run_op(gem, root, op, ip=None):
+def run_op(gem, root, op, ip=None, sub=''):
     """-> outcome string"""
     E = gem.gemato.exceptions
     if ip:
         ip.install()
     try:
         try:
+            if op == 'findtop':
+                # the upward search for the top-level Manifest, started in a sub-directory: a candidate
+                # that cannot be inspected must not be taken for "no Manifest here"
+                gem.gemato.find_top_level.find_top_level_manifest(os.path.join(root, sub))
+                return 'ok'
             ld = gem.loader(os.path.join(root, 'Manifest'), hashes=['SHA1'])
             if op == 'verify':
                 r = ld.assert_directory_verifies('')
@@ -222,18 +227,21 @@ def one_tree(args):
         elif variant == 'altered' and L.files:
             gen.mutate(rng, L, root, kind='alter_same')
         errnos = ERRNOS if o.get('all_errnos') else rng.sample(ERRNOS, 3)
-        for op in ('verify', 'update'):
-            plain = run_op(gem, root, op)
+        subdirs = [d for d in L.dirs if d and os.path.isdir(os.path.join(root, d))]
+        fsub = rng.choice(subdirs) if subdirs else ''
+        for op in ('verify', 'update', 'findtop'):
+            sub = fsub if op == 'findtop' else ''
+            plain = run_op(gem, root, op, sub=sub)
             ip0 = Interposer(root)
             snap0 = drv_update.raw_snapshot(root)
-            clean = run_op(gem, root, op, ip0)
+            clean = run_op(gem, root, op, ip0, sub=sub)
             transparent = (clean == plain) and drv_update.raw_snapshot(root) == snap0
             ncalls = ip0.n
             ks = range(ncalls) if o.get('all_calls') or ncalls <= 40 else sorted(rng.sample(range(ncalls), 40))
             for k in ks:
                 for en in errnos:
                     ip = Interposer(root, fail_at=k, err=en)
-                    obs = run_op(gem, root, op, ip)
+                    obs = run_op(gem, root, op, ip, sub=sub)
                     changed = drv_update.raw_snapshot(root) != snap0
                     if changed:            # restore for the next run
                         shutil.rmtree(root)
